@@ -80,7 +80,7 @@ def specs_for(ctx, T, rng: random.Random):
     # (only on the first class of each codec family: the others share the code)
     if n <= 8 and _representative(T):
         for bg in pair_bgs[: ctx.n(1, 3)]:
-            for pos in range(n - 1):
+            for pos in range(0, n - 1, ctx.n(2, 1)):  # quick: even-aligned 16-bit fields only
                 yield from D.pair_sweep(n, pos, pos + 1, bg)
     if n == 4:
         yield from _f32_specs(rng, ctx.n(2000, 40000))
